@@ -1495,3 +1495,119 @@ func genC20(r *rng, n int, emit func(string)) {
 		}
 	}
 }
+
+// ---------------- C11 / C12: histories, schedules, memory ----------------
+func init() {
+	streams["c11"] = genC11
+	streams["c12"] = genC12
+}
+
+// a pool of sub-cases of every kind (pure operations only)
+func mixedCases(r *rng, n int) []string {
+	var out []string
+	collect := func(s string) {
+		op := strings.SplitN(s, " ", 2)[0]
+		switch op {
+		case "rand", "randconc", "randchunk", "scan", "rreq", "rburst", "wcall", "wexports", "conc", "canary":
+			return
+		}
+		if len(s) < 4000 {
+			out = append(out, s)
+		}
+	}
+	for len(out) < n {
+		switch r.intn(9) {
+		case 0:
+			genC01(r, 2, collect)
+		case 1:
+			genC03(r, 2, collect)
+		case 2:
+			genC04(r, 2, collect)
+		case 3, 4:
+			genC05(r, 2, collect) // OCRA messages shorter and longer than the pooled buffer
+		case 5:
+			genC06(r, 2, collect)
+		case 6:
+			names := otp.ListSuites()
+			sortStrings(names)
+			collect("nraw " + hxs(pick(r, names)))
+			collect("nraw " + hxs(grammarSuite(r, false)))
+		case 7:
+			genC02(r, 2, collect)
+		case 8:
+			genC16(r, 1, func(s string) {
+				if strings.HasPrefix(s, "rturl") || strings.HasPrefix(s, "purl") {
+					collect(s)
+				}
+			})
+		}
+	}
+	return out[:n]
+}
+
+func genC11(r *rng, n int, emit func(string)) {
+	// sequential histories are every other stream (one process, one P); here: schedules
+	procs := []int{1, 2, 4, 16}
+	gor := []int{1, 2, 8, 64}
+	for i := 0; i < n; i++ {
+		k := 4 + r.intn(10)
+		sub := mixedCases(r, k)
+		emit(fmt.Sprintf("conc %d %d %d %d %s", pick(r, gor), pick(r, procs), 1+r.intn(6), r.intn(2), hxs(strings.Join(sub, "\n"))))
+	}
+}
+
+func genC12(r *rng, n int, emit func(string)) {
+	emit("listsuites")
+	for i := 0; i < n; i++ {
+		layout := r.intn(6)
+		var inner string
+		switch r.intn(10) {
+		case 0, 1, 2, 3, 4:
+			c := genSuite(r, !r.chance(1, 8))
+			in := genInput(r, c, !r.chance(1, 6))
+			if r.chance(1, 3) { // lengths around the padding widths 8 and 128
+				in.Challenge = r.bytes(pick(r, []int{7, 8, 9, 10, 11, 64, 127, 128}))
+				in.SessionInfo = r.bytes(pick(r, []int{0, 1, 64, 127, 128}))
+				c.IncludeChallenge, c.IncludeSession = true, true
+				if c.Challenge == 0 {
+					c.Challenge = 1
+				}
+			}
+			s, key := genSecret(r)
+			switch r.intn(4) {
+			case 0:
+				inner = fmt.Sprintf("gocra %s %s %s", hxs(s), fmtSuite(c), fmtInput(in))
+			case 1:
+				inner = fmt.Sprintf("vocra %s %s %s %s", hxs(s), hxs(refCode(key, ocraMsg(c, in), c.Digits, uint64(c.Hash))), fmtSuite(c), fmtInput(in))
+			case 2:
+				inner = fmt.Sprintf("d6287 %s %s %s", hx(key), fmtSuite(c), fmtInput(in))
+			default:
+				inner = fmt.Sprintf("gocra_raw %s %s %s", hxs(s), fmtSuite(c), fmtInput(in))
+			}
+		case 5:
+			genC01(r, 1, func(s string) { inner = s })
+		case 6:
+			genC03(r, 1, func(s string) { inner = s })
+		case 7:
+			genC04(r, 1, func(s string) { inner = s })
+		case 8:
+			inner = fmt.Sprintf("padb %s %d", hx(r.bytes(pick(r, []int{0, 1, 7, 8, 9, 64, 127, 128, 129, 200}))), pick(r, []int{8, 128}))
+		case 9:
+			genC16(r, 1, func(s string) {
+				if strings.HasPrefix(s, "purl") || strings.HasPrefix(s, "gurl") {
+					inner = s
+				}
+			})
+		}
+		op := strings.SplitN(inner, " ", 2)[0]
+		switch op {
+		case "gocra", "vocra", "d6287", "gocra_raw", "ghotp", "vhotp", "gtotp", "vtotp", "d4226", "padb", "purl", "gurl":
+			emit(fmt.Sprintf("canary %d %s", layout, inner))
+		}
+		if i%9 == 0 { // suite look-ups must not change what is advertised
+			emit("nraw " + hxs(grammarSuite(r, false)))
+			emit("nraw " + hxs(strings.ToLower(grammarSuite(r, false))))
+			emit("listsuites")
+		}
+	}
+}
